@@ -68,6 +68,18 @@ def run(pid: str, tier: str, with_search: bool = False) -> int:
         k0, v0 = items[len(items) // 2]
         V.sample({"model_plan": {"cfg": v0[0]["cfg"], "f_over_fden": v0[0]["f"], "L": v0[0]["L"], "K": v0[0]["K"]}})
 
+    # 2b. new_ltf: whatever its three stages propose, the constraint section makes the structural clauses hold
+    nlc = {"NNs": Raw("8..12" if tier == "quick" else "8..14"), "NOlaps": Raw("{<<0,1>>,<<1,2>>,<<3,4>>,<<31,32>>}"),
+           "NBmins": Raw("{<<1,1>>,<<3,2>>,<<7,2>>}"), "NLminsOf(n)": Raw("{1,2,5,n-1,n}"), "FDen": sched.lcm_upto(12 if tier == "quick" else 14) * 2}
+    ninv = ["LengthBounds", "SingleUsesRecord", "CountIsNearestCapped", "DftConstraint", "BinNumberFloor", "BelowNyquist"]
+    r_orig = tlc.run_model("NewLtf", f"{pid}_newltf_original", constants=dict(nlc, BminBranch="original"), invariants=ninv)
+    if "DftConstraint" not in r_orig.violated:
+        raise tlc.TLCError("NewLtf.tla with the original bmin branch should violate DftConstraint (vacuity guard)")
+    r_new = tlc.run_model("NewLtf", f"{pid}_newltf", constants=dict(nlc, BminBranch="repaired"), invariants=ninv)
+    if r_new.violated:
+        raise tlc.TLCError(f"NewLtf.tla (repaired bmin branch) violates {r_new.violated}")
+    V.model(r_new, "NewLtf.tla: constraint section of new_ltf_plan under arbitrary stage proposals")
+
     # 3. recorded plans of all four schedulers + analyzer.plan()
     cfgs = sched.grid_configs(tier, sd)
     trs = common.pmap(sched.record_plan, cfgs, chunksize=32)
